@@ -281,6 +281,22 @@ func (s *SwapStateMachine) exponentialBackoffAndJitter() {
 // Recover tries to continue from the current state, by doing the associated Action
 func (s *SwapStateMachine) Recover() (bool, error) {
 	log.Infof("[Swap:%s]: Recovering from state %s", s.SwapId.String(), s.Current)
+	if s.Current == Default {
+		// The process stopped after the swap was first persisted but before its
+		// first transition: nothing has been sent, paid or locked for it yet.
+		// The initial state has no action to resume from, so close the swap
+		// instead of keeping it (and its channel) active forever.
+		s.Previous = s.Current
+		s.setState(State_SwapCanceled)
+		s.Data.SetState(State_SwapCanceled)
+		if s.Data.CancelMessage == "" {
+			s.Data.CancelMessage = "interrupted before the swap started"
+		}
+		if err := s.swapServices.swapStore.UpdateData(s); err != nil {
+			return false, err
+		}
+		return true, nil
+	}
 	state, ok := s.States[s.Current]
 	if !ok {
 		return false, fmt.Errorf("unknown state: %s for swap %s", s.Current, s.SwapId.String())
